@@ -434,7 +434,7 @@ impl<'a> ReplyData<'a> {
             .find(|(_, reply_on)| reply_on == &ReplyOn::Success || reply_on == &ReplyOn::Always)
         {
             Some((method_name, reply_on)) if reply_on == &ReplyOn::Success => {
-                let payload_values = self.payload.iter().map(|field| field.name());
+                let payload_values = self.payload.emit_payload_values();
                 let payload_deserialization = self.payload.emit_payload_deserialization();
                 let data_deserialization = self.data.map(DataField::emit_data_deserialization);
                 let data = self.data.map(|_| quote! { data, });
@@ -451,7 +451,7 @@ impl<'a> ReplyData<'a> {
                 }
             }
             Some((method_name, reply_on)) if reply_on == &ReplyOn::Always => {
-                let payload_values = self.payload.iter().map(|field| field.name());
+                let payload_values = self.payload.emit_payload_values();
                 let payload_deserialization = self.payload.emit_payload_deserialization();
 
                 quote! {
@@ -489,7 +489,7 @@ impl<'a> ReplyData<'a> {
             .find(|(_, reply_on)| reply_on == &ReplyOn::Error || reply_on == &ReplyOn::Always)
         {
             Some((method_name, reply_on)) if reply_on == &ReplyOn::Error => {
-                let payload_values = self.payload.iter().map(|field| field.name());
+                let payload_values = self.payload.emit_payload_values();
                 let payload_deserialization = self.payload.emit_payload_deserialization();
 
                 quote! {
@@ -501,7 +501,7 @@ impl<'a> ReplyData<'a> {
                 }
             }
             Some((method_name, reply_on)) if reply_on == &ReplyOn::Always => {
-                let payload_values = self.payload.iter().map(|field| field.name());
+                let payload_values = self.payload.emit_payload_values();
                 let payload_deserialization = self.payload.emit_payload_deserialization();
 
                 quote! {
@@ -678,23 +678,33 @@ impl DataField for MsgField<'_> {
 }
 
 pub trait PayloadFields {
+    fn emit_payload_values(&self) -> Vec<Ident>;
     fn emit_payload_deserialization(&self) -> TokenStream;
     fn emit_payload_serialization(&self) -> TokenStream;
     fn is_payload_marked(&self) -> bool;
 }
 
 impl PayloadFields for Vec<&MsgField<'_>> {
+    /// Names the dispatcher binds the payload values to. They are the dispatcher's own, so that a
+    /// payload parameter called `gas_used`, `data` or `error` does not shadow its locals.
+    fn emit_payload_values(&self) -> Vec<Ident> {
+        self.iter()
+            .zip(1..)
+            .map(|(field, num)| Ident::new(&format!("sv_payload{}", num), field.name().span()))
+            .collect()
+    }
+
     fn emit_payload_deserialization(&self) -> TokenStream {
         let sylvia = crate_module();
+        let deserialized_payload_names = self.emit_payload_values();
         if self.is_payload_marked() {
             // Safe to unwrap as we check if the payload exist.
-            let payload_value = self.first().unwrap().name();
+            let payload_value = deserialized_payload_names.first().unwrap();
             return quote! {
                 let #payload_value = payload ;
             };
         }
 
-        let deserialized_payload_names = self.iter().map(|field| field.name());
         quote! {
             let ( #(#deserialized_payload_names),* ) = #sylvia ::cw_std::from_json(&payload)?;
         }
